@@ -32,6 +32,10 @@ def gen_scenario(rng, max_threads):
                 lines += ['async %d %d' % (q, rng.range(10, 50)), 'single 1', 'async %d %d' % (q, rng.range(1, 5)), 'single %d' % rng.below(2)]
             else:
                 lines.append('single %d' % rng.below(2))       # also with work in flight
+    if nq and rng.chance(1, 4):
+        # leave a serial job pending with the workers parked, and destroy at once
+        lines += ['waitpar', 'sleep %d' % rng.range(100, 400), 'async %d %d' % (rng.range(1, nq), rng.range(1, 3)), 'del']
+        return lines
     if rng.chance(2, 3):
         lines.append('waitpar')
         for q in range(1, nq + 1):
@@ -53,6 +57,10 @@ CORPUS = [
     # single-thread mode switched on while a serial queue still has a backlog: later submissions stay behind the earlier ones
     ('async_in_single_mode_behind_backlog', ['seed 8 0', 'disp 2', 'queue', 'async 1 40', 'single 1', 'async 1 5', 'single 0', 'waitq 1', 'del']),
     ('async_in_single_mode_one_worker', ['seed 11 200', 'disp 1', 'queue', 'par 6', 'async 1 30', 'single 1', 'async 1 3', 'par 2', 'async 1 3', 'single 0', 'async 1 4', 'waitq 1', 'waitpar', 'del']),
+    # destruction right after a submission to a serial queue, with the workers parked: the job is dropped, not run by a worker that
+    # wakes up into the teardown
+    ('destroy_with_parked_workers_and_serial_job', ['seed 12 0', 'disp 4', 'queue', 'waitpar', 'sleep 300', 'async 1 1', 'del']),
+    ('destroy_with_parked_workers_and_serial_jobs_2', ['seed 13 0', 'disp 2', 'queue', 'queue', 'par 2', 'waitpar', 'sleep 300', 'async 2 3', 'async 1 2', 'del']),
     ('single_mode_with_work_in_flight', ['seed 4 400', 'disp 2', 'par 12', 'single 1', 'waitpar', 'par 3', 'single 0', 'par 9', 'single 1', 'pfor 0 9', 'waitpar', 'del']),
 ]
 
@@ -72,6 +80,18 @@ def tier_a(impl):
             m = re.search(r'serial_max_concurrent=(\d+)', a)
             if m and int(m.group(1)) > 1:
                 bad = 'two jobs of one serial queue ran concurrently (max %s)' % m.group(1)
+            # teardown: a worker that has SEEN the terminate flag (schedule points 1 and 3 report what it read) runs nothing any more
+            tr = (b['tags'].get('T') or [''])[0].split()[1:]
+            knows = set()
+            for tok in tr:
+                f = tok.split(':')
+                if len(f) != 4:
+                    continue
+                pt, th, q, v = (int(x) for x in f)
+                if pt in (1, 3) and v == 1:
+                    knows.add(th)
+                if pt == 4 and th in knows and not bad:
+                    bad = 'worker %d started a job of queue %d after it had seen the terminate flag (teardown runs nothing)' % (th, q)
             if bad:
                 out.append(dict(script=name, opn=i, op=b['op'], what=bad)); break
     return out
